@@ -4,6 +4,8 @@ Model of
   `instanceTypeNotFound`, `isDrifted`, `Drift.Reconcile`, and the guards of `Controller.Reconcile`;
 * `pkg/controllers/nodepool/hash/controller.go`: `Reconcile` / `updateNodeClaimHash`;
 * `pkg/controllers/nodeclaim/lifecycle/launch.go`: `PopulateNodeClaimDetails` (labels / annotations);
+* `pkg/controllers/provisioning/scheduling/nodeclaimtemplate.go`: `NewNodeClaimTemplate` / `ToNodeClaim` — what a NodeClaim
+  created from the NodePool AS IT IS STORED (whatever its annotations say) is stamped and labelled with (`createClaim`);
 as functions on a small state (one NodePool, some NodeClaims, the provider's answers), driven by histories of steps.
 External calls are parameters of the state (`Prov`).  Requirement algebra: `Karp.Model.Req`.  Core Lean only.
 -/
@@ -11,6 +13,7 @@ import Karp.Model.Hash
 import Karp.Model.Req
 import Karp.Gen.C15Drift
 import Karp.Gen.Labels
+import Karp.Gen.Template
 
 namespace Karp.Drift
 open Karp.Req Karp.Hash
@@ -199,6 +202,67 @@ def assign (a b : Labels) : Labels := b ++ a
 /-- `PopulateNodeClaimDetails`: provider labels below the NodeClaim's own labels -/
 def populateLabels (claimLabels providerLabels : Labels) : Labels := assign providerLabels claimLabels
 
+/-! ### Creating a NodeClaim from the NodePool (`NewNodeClaimTemplate` → `ToNodeClaim` → launch) -/
+
+/-- `strings.ToLower` on the (ASCII) kind of a node class -/
+def lowerAscii (s : String) : String := String.ofList (s.toList.map Char.toLower)
+
+/-- `v1.NodeClassLabelKey(GroupKind)` -/
+def nodeClassLabelKey (r : NodeClassRef) : String := r.group ++ "/" ++ lowerAscii r.kind
+
+/-- a Go map built from the list: the first entry of a key wins -/
+def dedupKV : Labels → Labels
+  | [] => []
+  | kv :: rest => kv :: (dedupKV rest).filter (fun p => p.1 != kv.1)
+
+/-- `NodeClaimTemplate.Labels` after `NewNodeClaimTemplate`: the template's labels below the NodePool / NodeClass labels -/
+def templateLabels (poolName : String) (t : Template) (r : NodeClassRef) : Labels :=
+  dedupKV (assign (t.labels.getD []) [(nodePoolKey, poolName), (nodeClassLabelKey r, r.name)])
+
+/-- `NodeClaimTemplate.Requirements` after `NewNodeClaimTemplate`: the NodePool's requirements and one `In [v]` per label
+    (the two simulation keys and the instance-type / capacity-type entries `ToNodeClaim` adds are never resolved into
+    labels and are left out) -/
+def templateReqs (sels : List Sel) (tl : Labels) : Except NewErr Reqs := do
+  let R ← buildReqs sels
+  pure (R.add ((labelReqs tl).map (·.2)))
+
+/-- keys for which `resolveCustomLabelsFromRequirements` materialises a label; `wellKnown` is the run-time table (the
+    provider registers its own keys) -/
+def customKey (wellKnown : List String) (k : String) : Bool :=
+  !(wellKnown.contains k || Karp.Gen.Labels.restrictedLabels.contains k || Karp.Gen.Template.simulationKeys.contains k)
+
+/-- `resolveCustomLabelsFromRequirements` is random (`Requirement.Any()`): `resolved` is an allowed outcome iff every
+    entry is a custom key with a non-empty value `Any()` may return, and every custom key without an entry may return
+    the empty string -/
+def resolvedAllowed (wellKnown : List String) (R : Reqs) (resolved : Labels) : Bool :=
+  resolved.all (fun kv => customKey wellKnown kv.1 && kv.2 != "" &&
+    (match R.lookup kv.1 with | some r => r.anyAllowed kv.2 | none => false))
+  && R.all (fun kr => !customKey wellKnown kr.1 || (resolved.lookup kr.1).isSome || kr.2.anyAllowed "")
+
+/-- the labels of the launched NodeClaim, in order of precedence: resolved custom labels, the template's labels (with
+    the NodePool / NodeClass labels), the provider's labels -/
+def createLabels (tl resolved providerLabels : Labels) : Labels :=
+  dedupKV (populateLabels (assign tl resolved) providerLabels)
+
+/-- what `NewNodeClaimTemplate` stamps: `nodePool.Hash()` of the template the NodeClaim is built from — NOT the
+    NodePool's annotation, which is only eventually consistent with the template — and the current hash version -/
+def stampOf (p : Pool) : Ann := { hash := some p.hashString, version := some currentVersion }
+
+/-- the provisioner creates NodeClaim `n` from the stored NodePool and the provider launches it (`resolved`: the outcome
+    of the `Any()` calls, `providerLabels`: what `Create` answers, `launched`: whether the launch completed) -/
+def createClaim (s : St) (n : String) (resolved providerLabels : Labels) (launched : Bool) : Except NewErr St :=
+  if !s.pool.present || s.claims.any (·.name == n) then pure s else
+  match s.pool.pool.template.nodeClassRef with
+  | none => .error .panicIndex  -- a nil dereference (the CRD requires nodeClassRef; never generated)
+  | some r => do
+    -- `NewNodeSelectorRequirementsWithMinValues(spec.requirements...)` indexes values[0] of a comparison operator
+    let _ ← buildReqs (s.pool.pool.template.requirements.getD [])
+    let tl := templateLabels s.pool.name s.pool.pool.template r
+    let c : Claim :=
+      { name := n, labels := createLabels tl resolved providerLabels, ann := stampOf s.pool.pool, launched := launched,
+        drifted := none, deleting := false, managed := s.poolManaged, createdAt := s.now }
+    pure { s with claims := s.claims ++ [c] }
+
 /-! ### Histories -/
 
 inductive Step
@@ -211,6 +275,7 @@ inductive Step
   | setProv (p : Prov)
   | advance (ns : Int)
   | reconcile (claim : String)
+  | create (claim : String) (resolved providerLabels : Labels) (launched : Bool)
 deriving Repr
 
 def setKV (l : Labels) (k : String) (v : Option String) : Labels :=
@@ -242,6 +307,7 @@ def step (s : St) : Step → Except NewErr (St × Bool)
   | .setProv p => pure ({ s with prov := p }, false)
   | .advance ns => pure ({ s with now := s.now + ns }, false)
   | .reconcile n => reconcileClaim s n
+  | .create n resolved providerLabels launched => do pure (← createClaim s n resolved providerLabels launched, false)
 
 /-- the states after every step (and the error flags) -/
 def run (s : St) : List Step → Except NewErr (List (St × Bool))
